@@ -114,6 +114,9 @@ pub fn gen_prim(run: &mut Run, seed: u64, thorough: bool, light: bool) {
     let n_rand = if light { 6 } else if thorough { 400 } else { 60 };
     let sweep = if light { 0 } else if thorough { 300 } else { 140 };
     for res in ["default", "ring", "toy"] {
+        if !crate::gen::FULL && res == "ring" {
+            continue;   // second binary (snow with default features only): no ring backend
+        }
         // ---- hashes, hmac, hkdf
         for h in ["SHA256", "SHA512", "Blake2s", "Blake2b"] {
             if res == "ring" && h.starts_with("Blake") {
@@ -140,7 +143,7 @@ pub fn gen_prim(run: &mut Run, seed: u64, thorough: bool, light: bool) {
         }
         // ---- ciphers
         for c in ["ChaChaPoly", "XChaChaPoly", "AESGCM"] {
-            if res == "ring" && c == "XChaChaPoly" {
+            if (res == "ring" || !crate::gen::FULL) && c == "XChaChaPoly" {
                 continue;
             }
             let mut sc = Sc::new();
@@ -213,7 +216,7 @@ pub fn gen_prim(run: &mut Run, seed: u64, thorough: bool, light: bool) {
             continue;
         }
         for d in ["Curve25519", "P256", "Curve448"] {
-            if res == "default" && d == "Curve448" {
+            if (res == "default" && d == "Curve448") || (!crate::gen::FULL && d == "P256") {
                 continue;
             }
             let mut sc = Sc::new();
@@ -269,6 +272,9 @@ pub fn gen_prim(run: &mut Run, seed: u64, thorough: bool, light: bool) {
         let mut sc = Sc::new();
         sc.ex.comment("generate_keypair: consistent and distinct (OS randomness; implementation only)");
         for name in ["Noise_NN_25519_ChaChaPoly_SHA256", "Noise_NN_P256_ChaChaPoly_SHA256"] {
+            if !crate::gen::FULL && name.contains("P256") {
+                continue;
+            }
             let mut seen: Vec<Vec<u8>> = vec![];
             for _ in 0..(if thorough { 200 } else { 30 }) {
                 let b = snow::Builder::new(name.parse().unwrap());
